@@ -99,6 +99,7 @@ Ltac rstep RI LI ET FR s0 :=
     first [ let X := fresh in intros X; discriminate X
           | intros _; left; cbn; use_eqs; reflexivity
           | intros _; right; left; reflexivity
+          | intros _; right; left; match goal with |- status ?s1 = _ => destruct (status s1); try discriminate; reflexivity end
           | let X := fresh in intros X; right; right; split; [exact X|rewrite ET; cbn; use_eqs; reflexivity] ] ].
 
 Lemma R_frame s s' :
@@ -112,7 +113,7 @@ Proof.
   constructor; rewrite ?E1, ?E2, ?E3, ?E4.
   - intros P. apply (KEEP holds_pmu); auto.
   - intros P. apply (KEEP in_tick); auto.
-  - intros P. destruct (R3 P) as [C|E]; auto. right. apply (KEEP at_cl); auto.
+  - intros P. destruct (R3 P) as [C|E]; [left; exact C|right; apply (KEEP at_cl); auto].
 Qed.
 
 Lemma astep_R s l s' : RInv s -> LInv s -> InvBS s -> astep s l = Some s' -> RInv s'.
